@@ -215,8 +215,8 @@ def sweep(ctx):
 
 
 def run_shard(ctx):
-    n = 170 if ctx.tier == 'quick' else 4000
-    ctx.set_budget(70 if ctx.tier == 'quick' else 2400)
+    n = 170 if ctx.tier == 'quick' else 16000
+    ctx.set_budget(70 if ctx.tier == 'quick' else 1100)
     explore(ctx, strategy(), run_case, n)
     if ctx.tier == 'thorough' and not ctx.stats.violations:
         sweep(ctx)
